@@ -719,7 +719,9 @@ def _box_any(x):
         f = uf('pytuple/%d' % len(x), *([S.Val] * len(x) + [S.Val]))
         return f(*[_box_any(v) for v in x]) if x else \
             z3.Const('pytuple:empty', S.Val)
-    if isinstance(x, (SSeq, MList, list, dict)):
+    if isinstance(x, (SSeq, MList)):
+        return TVal.unwrap(x)       # box.seq(arr, off, len)
+    if isinstance(x, (list, dict)):
         return z3.Const(S.fresh_name('container'), S.Val)
     if hasattr(x, 'as_val'):
         return x.as_val()
